@@ -96,7 +96,9 @@ fn log_roots(case: &Value, out: &mut Out, ty: &str, refine: bool, a: &[(f64, f64
     let fam = if lag { "lagcycle" } else if zp { "zeropolish" } else if ca { "cardanoaxis" } else { "" };
     e["fam"] = json!(fam);
     extra(&mut e);
-    if !fam.is_empty() { for chk in ["shape", "be"] { let mut s = e.clone(); s["chk"] = json!(chk); out.ev(s); } e["chk"] = json!("match"); }
+    // the recorded D16 instances (explicit degree-8 polynomials, field pid8 = coefficient list) are also reported clause by clause
+    if let Some(pid) = case.get("pid8") { e["pid8"] = pid.clone(); }
+    if !fam.is_empty() || case.get("pid8").is_some() { for chk in ["shape", "be"] { let mut s = e.clone(); s["chk"] = json!(chk); out.ev(s); } e["chk"] = json!("match"); }
     out.ev(e);
 }
 
@@ -170,6 +172,14 @@ pub fn gen(tier: &str, seed: u64, out: &mut Out) {
     push(out, json!({"ty": "f64", "refine": true, "cls": "d4", "sep": false, "a": hexvec(&[0.0, 0.0, -3.5]), "tr": hexvec(&[0.0, 0.0]), "tri": hexvec(&[0.0, 0.0])}));
     let c8 = -1.5549740084041903f64;
     push(out, json!({"ty": "f64", "refine": true, "cls": "d8", "sep": false, "a": hexvec(&[0.0, c8, -2.0 * c8, c8])}));
+    // D16 (recorded by input, not by family): degree-8 (anti-)palindromic polynomials (x^n +- 1)(x +- 1)^2(x -+ 1) on which roots(false)
+    // returns a value near 0; both settings, both element types; the refined runs stay strict
+    for a in [[-1i64, -2, -1, 0, 0, 0, 1, 2, 1], [1, 2, 1, 0, 0, 0, -1, -2, -1], [-3, 3, 3, -3, 0, -3, 3, 3, -3], [3, -3, -3, 3, 0, -3, 3, 3, -3], [2, 2, -2, -2, 0, 2, 2, -2, -2]] {
+        let pid = a.iter().map(|x| x.to_string()).collect::<Vec<String>>().join(",");
+        let af: Vec<f64> = a.iter().map(|x| *x as f64).collect();
+        for ty in ["f64", "cx"] { for refine in [false, true] {
+            push(out, json!({"ty": ty, "refine": refine, "cls": "d16", "sep": false, "pid8": pid, "a": hexvec(&af), "ai": hexvec(&[0.0; 9])})); } }
+    }
     // the documented representative of the known finding: (x - 1)^6 - 1e-6 (roots 1 + 0.1*exp(2 pi i k/6)), with polishing
     for refine in [false, true] { push(out, json!({"ty": "f64", "refine": refine, "cls": "ring", "sep": false, "a": hexvec(&[0.999999, -6.0, 15.0, -20.0, 15.0, -6.0, 1.0])})); }
     // degree 0 and the empty polynomial: rejected
